@@ -186,7 +186,8 @@ def rand_value(rng, loop):
 
 
 NAMES = ["cell_length_a", "symmetry_space_group_name_H-M", "atom_site_label", "atom_site_fract_x", "atom_site_fract_y", "atom_type_symbol",
-         "x", "Z", "chemical_formula_sum", "geom_bond_distance", "geom_bond_atom_site_label_1", "refine_ls_R_factor", "a.b", "k[1]", "name-2", "_lead", "tail_"]
+         "x", "Z", "chemical_formula_sum", "geom_bond_distance", "geom_bond_atom_site_label_1", "refine_ls_R_factor", "a.b", "k[1]", "name-2", "_lead", "tail_",
+         "diffrn_measured_fraction_theta_full", "atom_sites_solution_hydrogens_xy", "refine_ls_extinction_expression_and_a_very_long_local_suffix_0123456789"]      # 35, 32 and 73 characters
 
 
 def rand_block(rng, with_loops=True):
